@@ -49,6 +49,12 @@ def _case(draw):
         opts["namespace"] = [ns]
     if draw(st.integers(0, 4)) == 0:
         opts["params"].append("warehouse-package-name=acme-custom-dist")
+    if opts.get("transport") in ("grpc", None) and draw(st.integers(0, 4)) == 0:
+        # the alternative (ads) template set with its legacy directory layout (%namespace/%name/%version/%sub)
+        opts["params"] += ["python-gapic-templates=ads-templates", "old-naming"]
+        opts["old_naming"] = True
+        opts["snippets"] = False
+        opts["ads"] = True
     unknown = draw(st.lists(st.sampled_from(UNKNOWN), max_size=3))
     rep = draw(st.sampled_from([[], [], ["metadata"], ["autogen-snippets=False"]]))
     return {"api": api, "options": opts, "unknown": unknown, "repeated": rep, "positions": draw(st.integers(0, 5))}
